@@ -108,7 +108,7 @@ def xn(
             unpack_to=unpack_to,
             resource=resource,
         )
-        functools.update_wrapper(lazy_exec_node, _func)
+        functools.update_wrapper(lazy_exec_node, _func, updated=())
         return lazy_exec_node
 
     # case #1: arguments are provided to the decorator
@@ -214,7 +214,7 @@ def dag(
     def intermediate_wrapper(_func: Callable[P, RVDAG]) -> Union[DAG[P, RVDAG], AsyncDAG[P, RVDAG]]:
         # 0. Protect against multiple threads declaring many DAGs at the same time
         d = threadsafe_make_dag(_func, max_concurrency, is_async)
-        functools.update_wrapper(d, _func)
+        functools.update_wrapper(d, _func, updated=())
         return d
 
     # case 1: arguments are provided to the decorator
